@@ -16,6 +16,7 @@ type vSrc struct {
 	one   bool // one byte per read
 	eofWith bool // deliver the last bytes together with io.EOF (allowed by the io.Reader contract)
 	ndLeft  int  // nondeterministic reads left (then whole reads); bounds the 3^reads fan-out
+	zero    bool // every other Read returns (0, nil) (legal, if discouraged, for an io.Reader)
 }
 
 func (s *vSrc) Read(p []byte) (int, error) {
@@ -26,12 +27,19 @@ func (s *vSrc) Read(p []byte) (int, error) {
 	if len(p) == 0 {
 		return 0, nil
 	}
+	if s.zero && s.reads%2 == 1 {
+		return 0, nil
+	}
 	n := len(s.data) - s.pos
 	if n > len(p) {
 		n = len(p)
 	}
 	if s.one {
 		n = 1
+	} else if s.zero {
+		if n > 2 {
+			n = 2
+		}
 	} else if !s.whole && n > 1 && s.ndLeft > 0 {
 		s.ndLeft--
 		k := 3
